@@ -153,6 +153,17 @@ def _has_collinear(ring):
 @st.composite
 def star_mesh_spec(draw):
     m = draw(S.mesh_with_stars())
+    if draw(st.integers(0, 2)) == 0:
+        # a seam: two mesh nodes at the same position (parts of a mesh stitched together), one
+        # face pointed at the copy; sometimes a further copy that no face uses
+        k = draw(st.integers(0, len(m["nodes"]) - 1))
+        users = [f for f, face in enumerate(m["faces"]) if k in face]
+        m["nodes"].append(list(m["nodes"][k]))
+        if users:
+            f = users[draw(st.integers(0, len(users) - 1))]
+            m["faces"][f] = [len(m["nodes"]) - 1 if n == k else n for n in m["faces"][f]]
+        if draw(st.booleans()):
+            m["nodes"].append(list(m["nodes"][k]))
     enc = draw(S.ugrid_encoding(supply=[], allow_transpose=True))
     geom = {"nodes": m["nodes"], "faces": m["faces"], "invalid": m["invalid"],
             "edges": specs.mesh_edges(m["faces"]), "enc": enc}
@@ -221,6 +232,81 @@ def signed_zero_spec(draw):
     return spec
 
 
+@st.composite
+def notched_polygon(draw, cx, cy):
+    """A thin convex polygon (points of a parabola under a chord) with ONE deep notch cut into
+    the chord: exactly one vertex off the convex hull, long edges at the notch, short ones
+    elsewhere.  Integer construction, so the convex part is strictly convex exactly."""
+    w = draw(st.sampled_from([6, 8, 12, 16, 24, 32]))
+    inner = sorted(draw(st.lists(st.integers(1, w - 1), min_size=2, max_size=6, unique=True)))
+    xs = [0] + inner + [w]
+    chain = [(x, -x * (w - x)) for x in xs]                 # left to right along the parabola
+    xn = draw(st.integers(1, w - 1))
+    local = xn * (w - xn)
+    deep = draw(st.sampled_from(["deep", "deep", "any"]))
+    yn = draw(st.integers(max(1, (3 * local) // 4), local - 1)) if deep == "deep" and local > 4 \
+        else draw(st.integers(1, max(1, local - 1)))
+    if yn >= local:
+        yn = local - 1
+    if yn < 1:
+        return None
+    ring = chain + [(xn, -yn)]                               # back along the chord via the notch
+    ux = 2.0 ** -draw(st.sampled_from([1, 2, 3]))
+    uy = 2.0 ** -draw(st.sampled_from([4, 6, 8, 10]))
+    swap = draw(st.booleans())
+    sx, sy = draw(st.sampled_from([1, -1])), draw(st.sampled_from([1, -1]))
+    pts = []
+    for x, y in ring:
+        px, py = sx * x * ux, sy * y * uy
+        if swap:
+            px, py = py, px
+        pts.append([cx + px, cy + py])
+    k = draw(st.integers(0, len(pts) - 1))
+    pts = pts[k:] + pts[:k]
+    if draw(st.booleans()):
+        pts = pts[::-1]
+    return pts
+
+
+@st.composite
+def notched_mesh_spec(draw):
+    nodes, faces = [], []
+    for k in range(draw(st.integers(1, 4))):
+        ring = draw(notched_polygon(100.0 * k, -40.0))
+        if ring is None:
+            continue
+        base = len(nodes)
+        nodes.extend(ring)
+        faces.append(list(range(base, base + len(ring))))
+    if not faces:
+        nodes = [[0.0, 0.0], [1.0, 0.0], [1.0, 1.0], [0.0, 1.0]]
+        faces = [[0, 1, 2, 3]]
+    enc = draw(S.ugrid_encoding(supply=[], allow_transpose=True))
+    geom = {"nodes": nodes, "faces": faces, "invalid": [], "edges": specs.mesh_edges(faces), "enc": enc}
+    return {"conv": "ugrid", "geom": geom, "extra": {}, "vars": [], "mode": "raw"}
+
+
+def check_notched(spec, ctx):
+    check_spec(spec, ctx)
+    # how many of the faces have a notch so deep that the turn at the notch outweighs all the
+    # other turns together (the sum of the vertex cross products then has the sign opposite to
+    # the ring's winding) - the class where "which way is this ring wound" shortcuts go wrong
+    dominated = 0
+    g = spec["geom"]
+    for face in g["faces"]:
+        pts = [g["nodes"][n] for n in face]
+        k = len(pts)
+        turns = []
+        for a in range(k):
+            (x0, y0), (x1, y1), (x2, y2) = pts[a - 1], pts[a], pts[(a + 1) % k]
+            turns.append((x1 - x0) * (y2 - y1) - (y1 - y0) * (x2 - x1))
+        area2 = sum(pts[a][0] * pts[(a + 1) % k][1] - pts[(a + 1) % k][0] * pts[a][1] for a in range(k))
+        if k >= 5 and sum(turns) * area2 < 0:
+            dominated += 1
+    ctx.label(f"faces_where_the_notch_turn_dominates:{min(dominated, 2)}")
+    ctx.nontrivial(dominated >= 1)
+
+
 def check_sparse(spec, ctx):
     check_spec(spec, ctx)
     holes = spec["geom"]["holes"]
@@ -241,6 +327,7 @@ SUBS = [
     Sub("datasets", strategy, check_spec, quick=150, thorough=800),
     Sub("polyomino_meshes", mesh_strategy, check_spec, quick=100, thorough=600),
     Sub("star_meshes", lambda tier: star_mesh_spec(), check_spec, quick=400, thorough=2000),
+    Sub("notched_polygons", lambda tier: notched_mesh_spec(), check_notched, quick=150, thorough=1000),
     Sub("signed_zero_corners", lambda tier: signed_zero_spec(), check_spec, quick=30, thorough=200),
     Sub("sparse_large_grids", lambda tier: sparse_grid_spec(), check_sparse, quick=25, thorough=200),
 ]
